@@ -66,6 +66,8 @@ def configs(tier, seed):
         cfgs.append(dict(kind='si_reset', name='si_reset ' + nm, S=S, M=M, D=D, style=style, trans=tr, NMAX=6))
         cfgs.append(dict(kind='si_dead', name='si_dead ' + nm, S=S, M=M, D=D, style=style, trans=tr, NMAX=8 if tier == 'quick' else 11))
         cfgs.append(dict(kind='si_guard', name='si_guard ' + nm, S=S, M=M, D=D, style=style, trans=tr))
+        if tier != 'quick' or D <= 6:
+            cfgs.append(dict(kind='si_dtype', name='si_dtype ' + nm, S=S, M=M, D=D, style=style, trans=tr, NMAX=3 if tier == 'quick' else 5))
     cfgs.append(dict(kind='ast', name='ast no-state-writes in _compute_frame'))
     return cfgs
 
@@ -476,6 +478,74 @@ def run_si_reset(cfg):
     return dict(obligations=ob, discharged=dis, violations=viol, samples=[], twin=ob > 0)
 
 
+def run_si_dtype(cfg):
+    """alternating float dtypes on one short-integration instance: a float32 utterance, then a float64 one (and the
+    reverse), against a fresh instance fed the second utterance only: same frames (terms), no exception"""
+    S, M, D, style, NMAX = cfg['S'], cfg['M'], cfg['D'], cfg['style'], cfg['NMAX']
+    ns = _si_setup(cfg)
+    viol = []
+    ob = dis = 0
+    names = ['N1', 'N2', 'c0']
+
+    def sigd(off, n, dt, fn):
+        a = ND.fresh((n,), lambda idx: fn(_z(off) + idx[0]), dt)
+        a.store.readonly = True
+        return a
+
+    def body():
+        c = Ctx.cur
+        N1, N2, c0 = z3.Int('N1'), z3.Int('N2'), z3.Int('c0')
+        c.inputs = [N1, N2, c0]
+        c.assume(N1 >= 1, N1 <= NMAX, N2 >= 0, N2 <= NMAX, c0 >= 0, c0 <= N2)
+        first32 = decide(z3.Bool('first_utterance_float32'))
+        d1, d2 = ('f4', 'f8') if first32 else ('f8', 'f4')
+        try:
+            o = si.mk(ns, S, M, D, style, 1, True, False, trans=cfg.get('trans'))
+            fresh = si.mk(ns, S, M, D, style, 1, True, False, trans=cfg.get('trans'))
+            o.compute_chunk(sigd(z3.IntVal(0), conc(SInt(N1)), d1, xa))
+            o.finalize()
+            rows = []
+            for obj in (o, fresh):
+                rr = []
+                rr.extend(si._rows(obj.compute_chunk(sigd(z3.IntVal(0), conc(SInt(c0)), d2, si.x)), 1))
+                rr.extend(si._rows(obj.compute_chunk(sigd(c0, conc(SInt(N2 - c0)), d2, si.x)), 1))
+                rr.extend(si._rows(obj.finalize(), 1))
+                rows.append(rr)
+        except Exception as e:
+            symex.guard(e)
+            return ('exc', '%s: %s' % (type(e).__name__, e), first32)
+        ra, rb = rows
+        if len(ra) != len(rb):
+            return ('count', len(ra), len(rb), first32)
+        bad = [p[0] != q[0] for p, q in zip(ra, rb) if not p[0].eq(q[0])]
+        return ('ok', bad, first32)
+
+    for ctx, res in explore(body):
+        if res is None:
+            continue
+        ob += 1
+        base = dict(kind='si_dtype', S=S, M=M, D=D, style=style)
+        if res[0] != 'ok':
+            viol.append(dict(base, what=res[0], detail=str(res[1:-1])[:200], first32=res[-1], **_ints(ctx.model(), names)))
+            continue
+        if not res[1]:
+            dis += 1
+            continue
+        s = ctx.solver
+        s.push()
+        s.add(z3.Or(res[1]))
+        r = check_sat(s)
+        if r == 'sat':
+            viol.append(dict(base, what='frames of the second utterance differ from a fresh instance', first32=res[2], **_ints(s.model(), names)))
+        else:
+            dis += 1
+        s.pop()
+    for w in viol:
+        w['class'] = 'si_dtype/%s/%s' % (style, w['what'][:20])
+    return dict(obligations=ob, discharged=dis, violations=viol, twin=dis > 0,
+                samples=[{'config': cfg['name'], 'obligation': 'float32 utterance then float64 utterance (and the reverse) == fresh instance'}])
+
+
 def run_si_dead(cfg):
     S, M, D, style, NMAX = cfg['S'], cfg['M'], cfg['D'], cfg['style'], cfg['NMAX']
     ns = _si_setup(cfg)
@@ -633,7 +703,7 @@ def run_ast(cfg):
 
 def run_config(cfg):
     return {'stft_reset': run_stft_reset, 'stft_dead': run_stft_dead, 'stft_guard': run_stft_guard,
-            'stft_dtype': run_stft_dtype, 'si_reset': run_si_reset, 'si_dead': run_si_dead, 'si_guard': run_si_guard, 'ast': run_ast}[cfg['kind']](cfg)
+            'stft_dtype': run_stft_dtype, 'si_dtype': run_si_dtype, 'si_reset': run_si_reset, 'si_dead': run_si_dead, 'si_guard': run_si_guard, 'ast': run_ast}[cfg['kind']](cfg)
 
 
 # ------------------------------------------------------------------ replay on the real library
@@ -660,6 +730,25 @@ def replay(w):
         r = _replay_with('stft_dead', lambda: sc.real_stft(5, 2, 'centered', False), range(0, 17), [13, 5, 3, 15], rng)
         r['detail'] = '%s; %s' % (w['what'], r['detail'])
         return r
+    if k == 'si_dtype':
+        d1, d2 = (np.float32, np.float64) if w.get('first32', True) else (np.float64, np.float32)
+        for S_ in (w['S'], 9):
+            for N1 in sorted(set([w.get('N1', 3), 1, 5, 40, 200])):
+                for N2 in sorted(set([w.get('N2', 5), 7, 60, 300])):
+                    c = si.real_si(S_, None, w['style'])
+                    x1, x2 = rng.randn(N1).astype(d1), (rng.randn(N2) * 3).astype(d2)
+                    c0 = max(0, min(N2, w.get('c0', N2 // 2)))
+                    try:
+                        c.compute_chunk(x1)
+                        c.finalize()
+                        a = _feats(c, x2, [c0, N2 - c0])
+                        b = _feats(si.real_si(S_, None, w['style']), x2, [c0, N2 - c0])
+                    except Exception as e:
+                        return {'reproduced': True, 'detail': 'SI computer (frame shift %d, %s): after a %s utterance of %d samples, a %s utterance of %d samples raised %s: %s' % (
+                            c._frame_shift, w['style'], np.dtype(d1).name, N1, np.dtype(d2).name, N2, type(e).__name__, str(e)[:80])}
+                    if a.shape != b.shape or not np.array_equal(a, b):
+                        return {'reproduced': True, 'detail': 'SI computer: %s utterance after a %s utterance is not bit-identical to a fresh instance' % (np.dtype(d2).name, np.dtype(d1).name)}
+        return {'reproduced': False, 'detail': 'bit-identical to a fresh instance for alternating dtypes'}
     if k == 'stft_dtype':
         L, S, style, kaldi = w['L'], w['S'], w['style'], w['kaldi']
         d1, d2 = (np.float32, np.float64) if w.get('first32', True) else (np.float64, np.float32)
